@@ -388,8 +388,8 @@ theorem obs_ne (ss : Session) (op : Op) (ops : List Op) (h : op ≠ .getters) :
 /-- **the walk of the specification over a segment**: on the statuses the model reports and the
     decoded finished message, `walk` accepts every call and reaches `checkSegment` in an abstract
     state that describes the final writer state -/
-theorem walk_segment {sR : State} (hcurR : sR.cursor ≤ 65535) (d : Message.Decoded) (m : Bytes)
-    (mac' : Option (List UInt8))
+theorem walk_segment_k {sR : State} (hcurR : sR.cursor ≤ 65535) (d : Message.Decoded)
+    (mac' : Option (List UInt8)) (rest : List Message.SOp) (sts : List String) (msgs : List Bytes)
     (hpre : ∀ s, WInv s → s.rrStart ≤ s.cursor → Seg s sR → ∀ qs rs, QChainC s qs 12 s.rrStart →
       RChainC s rs s.rrStart s.cursor →
       (d.extents.map (·.2)).take (qs.length + rs.length) = qs.map qEnd ++ rs.map rEnd) :
@@ -400,14 +400,15 @@ theorem walk_segment {sR : State} (hcurR : sR.cursor ≤ 65535) (d : Message.Dec
       Respects ss ops → (∀ op ∈ ops, op ≠ .clearRrs ∧ NonEmptySet op) → (run ss ops).1.w = sR →
       ∃ aF, AbsNum sR aF ∧ aF.hdr = specHeader sR.octets ∧ aF.hdr.z = 0 ∧
         AbsContent aF (bodyRun b ops (run ss ops).2) (mrun ss mb ops) ∧ AbsCfg sR aF ∧
-        Message.walk false a (ops.map Driver.toSpecOp) (obs ss ops ++ ["ok"]) [m] (some d) mac' =
-          Message.checkSegment false aF d m.size mac' := by
+        Message.walk false a (ops.map Driver.toSpecOp ++ rest) (obs ss ops ++ sts) msgs (some d) mac' =
+          Message.walk false aF rest sts msgs (some d) mac' ∧
+        IdxOK aF ∧ aF.itemIdx = bodyLen (bodyRun b ops (run ss ops).2) := by
   intro ops
   induction ops with
   | nil =>
     intro ss b mb a hI hL hA hidx hlen hh hz hC hG _ _ _ hfin
-    refine ⟨a, by rw [← hfin]; exact hA, by rw [← hfin]; exact hh, hz, hC, by rw [← hfin]; exact hG, ?_⟩
-    simp [run, obs, Message.walk]
+    refine ⟨a, by rw [← hfin]; exact hA, by rw [← hfin]; exact hh, hz, hC, by rw [← hfin]; exact hG, ?_, hidx, hlen⟩
+    simp [run, obs]
   | cons op ops ih =>
     intro ss b mb a hI hL hA hidx hlen hh hz hC hG ht hr hno hfin
     obtain ⟨hop, hrest⟩ := hr
@@ -425,13 +426,17 @@ theorem walk_segment {sR : State} (hcurR : sR.cursor ≤ 65535) (d : Message.Dec
       | mk ss'' rs =>
         rw [hrun] at hfin
         simp only at hfin
-        obtain ⟨aF, hAF, hF1, hF2, hF3, hF4, hw⟩ := ih ss b mb a hI hL hA hidx hlen hh hz hC hG ht' hrest hno'
+        obtain ⟨aF, hAF, hF1, hF2, hF3, hF4, hw, hF5, hF6⟩ := ih ss b mb a hI hL hA hidx hlen hh hz hC hG ht' hrest hno'
           (by rw [hrun]; exact hfin)
-        rw [hrun] at hF3
-        refine ⟨aF, hAF, hF1, hF2, ?_, hF4, ?_⟩
+        rw [hrun] at hF3 hF6
+        refine ⟨aF, hAF, hF1, hF2, ?_, hF4, ?_, hF5, ?_⟩
         · unfold run mrun
           simp only [hstep, hrun]
           simpa [bodyRun, bodyStep, mbodyStep] using hF3
+        rotate_left
+        · unfold run
+          simp only [hstep, hrun]
+          simpa [bodyRun, bodyStep] using hF6
         · have hg := gettersStr_eq ss.w a hA hh hG
           simp only [List.map_cons, Driver.toSpecOp, obs, List.cons_append, Message.walk, hg, beq_self_eq_true,
             Bool.or_true, if_true]
@@ -463,10 +468,10 @@ theorem walk_segment {sR : State} (hcurR : sR.cursor ≤ 65535) (d : Message.Dec
             simp only [reduceCtorEq, if_false] at this
             rw [this]; exact hh
           have hG' : AbsCfg ss'.w a := absCfg_same hG (hsame e rfl)
-          obtain ⟨aF, hAF, hF1, hF2, hF3, hF4, hw⟩ := ih ss' b mb a hI' hL' hA' hidx hlen hh' hz hC hG' ht' hrest hno'
+          obtain ⟨aF, hAF, hF1, hF2, hF3, hF4, hw, hF5, hF6⟩ := ih ss' b mb a hI' hL' hA' hidx hlen hh' hz hC hG' ht' hrest hno'
             (by rw [hrun]; exact hfin)
-          rw [hrun] at hF3
-          refine ⟨aF, hAF, hF1, hF2, by simpa [bodyRun] using hF3, hF4, ?_⟩
+          rw [hrun] at hF3 hF6
+          refine ⟨aF, hAF, hF1, hF2, by simpa [bodyRun] using hF3, hF4, ?_, hF5, by simpa [bodyRun] using hF6⟩
           simp only [List.map_cons, List.cons_append]
           rw [walk_default _ _ _ _ _ _ _ _ hs1 hs2, statusStr_err_ne_ok]
           simp only [Bool.false_eq_true, if_false, Bool.false_or, hjust e rfl, if_true]
@@ -550,10 +555,10 @@ theorem walk_segment {sR : State} (hcurR : sR.cursor ≤ 65535) (d : Message.Dec
           have hG' : AbsCfg ss'.w a' := by
             have := cfg_step ss op a a' d hI hG (ht op List.mem_cons_self).2 hok habs
             rw [hw'] at this; exact this
-          obtain ⟨aF, hAF, hF1, hF2, hF3, hF4, hw⟩ := ih ss' (bodyStep b op) _ a' hI' hL' hA' hidx' hlen' hh' hz' hC' hG'
+          obtain ⟨aF, hAF, hF1, hF2, hF3, hF4, hw, hF5, hF6⟩ := ih ss' (bodyStep b op) _ a' hI' hL' hA' hidx' hlen' hh' hz' hC' hG'
             ht' hrest hno' (by rw [hrun]; exact hfin)
-          rw [hrun] at hF3
-          refine ⟨aF, hAF, hF1, hF2, by simpa [bodyRun] using hF3, hF4, ?_⟩
+          rw [hrun] at hF3 hF6
+          refine ⟨aF, hAF, hF1, hF2, by simpa [bodyRun] using hF3, hF4, ?_, hF5, by simpa [bodyRun] using hF6⟩
           simp only [List.map_cons, List.cons_append]
           rw [walk_default _ _ _ _ _ _ _ _ hs1 hs2]
           have hokstr : (Driver.statusStr (.ok u) == "ok") = true := by cases u; decide
@@ -561,6 +566,28 @@ theorem walk_segment {sR : State} (hcurR : sR.cursor ≤ 65535) (d : Message.Dec
           simp only [if_true, habs]
           exact hw
 
+
+theorem walk_segment {sR : State} (hcurR : sR.cursor ≤ 65535) (d : Message.Decoded) (m : Bytes)
+    (mac' : Option (List UInt8))
+    (hpre : ∀ s, WInv s → s.rrStart ≤ s.cursor → Seg s sR → ∀ qs rs, QChainC s qs 12 s.rrStart →
+      RChainC s rs s.rrStart s.cursor →
+      (d.extents.map (·.2)).take (qs.length + rs.length) = qs.map qEnd ++ rs.map rEnd) :
+    ∀ (ops : List Op) (ss : Session) (b : Body) (mb : MBody) (a : Message.AState),
+      I ss.w → CLay (fun _ => True) ss.w b mb → AbsNum ss.w a → IdxOK a → a.itemIdx = bodyLen b →
+      a.hdr = specHeader ss.w.octets → a.hdr.z = 0 → AbsContent a b mb → AbsCfg ss.w a →
+      (∀ op ∈ ops, op.Typed ∧ ApiBounds op) →
+      Respects ss ops → (∀ op ∈ ops, op ≠ .clearRrs ∧ NonEmptySet op) → (run ss ops).1.w = sR →
+      ∃ aF, AbsNum sR aF ∧ aF.hdr = specHeader sR.octets ∧ aF.hdr.z = 0 ∧
+        AbsContent aF (bodyRun b ops (run ss ops).2) (mrun ss mb ops) ∧ AbsCfg sR aF ∧
+        Message.walk false a (ops.map Driver.toSpecOp) (obs ss ops ++ ["ok"]) [m] (some d) mac' =
+          Message.checkSegment false aF d m.size mac' := by
+  intro ops ss b mb a h1 h2 h3 h4 h5 h6 h7 h8 h9 h10 h11 h12 h13
+  obtain ⟨aF, x1, x2, x3, x4, x5, x6, _, _⟩ := walk_segment_k hcurR d mac' [] ["ok"] [m] hpre ops ss b mb a h1 h2 h3 h4 h5 h6
+    h7 h8 h9 h10 h11 h12 h13
+  refine ⟨aF, x1, x2, x3, x4, x5, ?_⟩
+  rw [List.append_nil] at x6
+  rw [x6]
+  simp [Message.walk]
 
 /-- **the walk of `checkSession` from a fresh writer**, for sessions without `clear_rrs` and `getters`
     whose limits are at most 65535: run on the statuses of the model and on the decoded finished
